@@ -583,7 +583,7 @@ def part_binary(prop, part):
 
 
 def part_binary_(prop, part):
-    if part.get("flavour") in ("sched", "schedrel"):
+    if part.get("flavour", "").startswith("sched"):
         ld = ["-Wl," + ",".join("--wrap=" + w for w in WRAPS + list(part.get("wraps", ())))] + list(part.get("ldflags", ()))
         return build_bin(part.get("bin", "%s_%s" % (prop, part["name"])), part["sources"], part["flavour"], part.get("cflags", ()), ld, deps=part.get("deps", ()), plain_sources=["vsched/rt.cpp"] + list(part.get("plain_sources", ())))
     if part["kind"] == "libfuzzer":
